@@ -1364,12 +1364,12 @@ func conv(t_dst, t_src types.Type, x value) value {
 					for _, r := range []rune(s) {
 						res = append(res, r)
 					}
-					return res
+					return res[:len(res):len(res)] // capacity = length (no zero-valued slack)
 				case types.Byte:
 					for _, b := range []byte(s) {
 						res = append(res, b)
 					}
-					return res
+					return res[:len(res):len(res)]
 				}
 			case *types.Basic:
 				if ut_dst.Kind() == types.String {
